@@ -128,6 +128,11 @@ class DerivationTree:
 
             result.__dict__.update(a_dict)
 
+            # The cached hashes derive from string hashes, which differ between
+            # interpreter runs; they must not survive deserialization.
+            result.__hash = None
+            result.__structural_hash = None
+
             # To ensure that when resuming from a checkpoint during debugging,
             # ID uniqueness constraints are maintained.
             if result.id >= DerivationTree.next_id:
